@@ -45,9 +45,10 @@ def gen(rng, tier):
             pol = {"kind": "base"}
     layers = [{"t": "retry", "policy": pol}]
     subs = {}
+    falsy_run = rng.random() < 0.15      # some runs raise an exception object whose truth value is False
     for s in range(nsubs):
         nfail = rng.choice([0, 1, 1, 2, 3, 5])
-        script = [rng.choice(["ErrA", "ErrA", "ErrB", "ErrC"]) for _ in range(nfail)] + ["ok"]
+        script = [rng.choice(["ErrA", "ErrA", "ErrB", "ErrC"] + (["FalsyErr"] if falsy_run else [])) for _ in range(nfail)] + ["ok"]
         if rng.random() < 0.15:
             script[-1] = "ErrA"
         subs[str(s)] = {"script": script, "dur": rng.choice([0, 0.05, 0.1, 0.5])}
